@@ -30,12 +30,17 @@ MCChoices(nd, iss, l) ==
    ack : {IF l.wf THEN l.h.ack ELSE 0}]
 
 \* re-entry: the application's callback, while a SET report of node n / child c is being announced, makes one of the alphabet's
-\* set_child_value calls for that node and child (0 = it does not)
+\* set_child_value calls for that node and child; while a PRESENTATION is being announced, one of the alphabet's image-less
+\* update_fw calls, for the presenting node (0 = it does not call back)
 ReactIdx(l) == IF WithReact /\ l.wf /\ l.h.cmd = SET
                THEN {0} \cup {k \in 1..Len(Calls) : Calls[k].a = "SetChild" /\ Calls[k].n = l.h.n /\ Calls[k].c = l.h.c}
+               ELSE IF WithReact /\ l.wf /\ l.h.cmd = PRES
+               THEN {0} \cup {k \in 1..Len(Calls) : Calls[k].a = "UpdateFw" /\ ~Calls[k].img}
                ELSE {0}
-RxOf(k) == IF k = 0 THEN NoReact
-           ELSE [on |-> TRUE, kind |-> "set", n |-> 0, f |-> <<0, 0>>, t |-> Calls[k].t, v |-> Calls[k].v, a |-> Calls[k].ack]
+RxOf(k, l) == IF k = 0 THEN NoReact
+              ELSE IF Calls[k].a = "SetChild"
+              THEN [on |-> TRUE, kind |-> "set", n |-> 0, f |-> <<0, 0>>, t |-> Calls[k].t, v |-> Calls[k].v, a |-> Calls[k].ack]
+              ELSE [on |-> TRUE, kind |-> "fw", n |-> l.h.n, f |-> <<Calls[k].f[1], Calls[k].f[2]>>, t |-> 0, v |-> 0, a |-> 0]
 
 MCInit == Init /\ last = [a |-> "Init", i |-> 0, r |-> 0]
 
@@ -46,7 +51,7 @@ MCNext ==
   \/ \E i \in 1..Len(Lines) :
        \/ /\ Flavour = "async"
           /\ \E ch \in MCChoices(nodes, issued, Lines[i]), k \in ReactIdx(Lines[i]) :
-                /\ RecvAsyncR(Lines[i], ch, RxOf(k))
+                /\ RecvAsyncR(Lines[i], ch, RxOf(k, Lines[i]))
                 /\ last' = [a |-> "Recv", i |-> i, r |-> k]
        \/ /\ Flavour = "sync" /\ Len(jobs) < MaxJobs
           /\ RecvSync(Lines[i])
@@ -54,7 +59,7 @@ MCNext ==
   \/ /\ Flavour = "sync" /\ jobs # <<>>
      /\ IF Head(jobs).k = "L"
         THEN \E ch \in MCChoices(nodes, issued, Head(jobs).l), k \in ReactIdx(Head(jobs).l) :
-                /\ PumpR(ch, RxOf(k))
+                /\ PumpR(ch, RxOf(k, Head(jobs).l))
                 /\ last' = [a |-> "PumpL", i |-> Head(jobs).l.id, r |-> k]
         ELSE /\ Pump([id |-> 0, ord |-> <<>>, ack |-> 0])
              /\ last' = [a |-> "PumpE", i |-> 0, r |-> 0]
